@@ -206,6 +206,9 @@ func TestVf_C20(t *testing.T) {
 	ports := []int{1, 2, 22, 80, 443, 5222, 5223, 5269, 5275, 8888, 65534, 65535}
 	for c := 0; c < n; c++ {
 		h, kind := vfGenHost(r)
+		if h == "ws" || h == "wss" {
+			h = "x" + h // "ws:5222" is, by the library's documented rule, an address with a ws: scheme - not a host name
+		}
 		cs := vfAddrCase{Host: h, Kind: kind}
 		if kind == "ipv6" {
 			cs.Bracketed = r.Intn(2) == 0
